@@ -59,7 +59,9 @@ func c16Cap(v int) *uint {
 
 type c16Caps struct{ node, ns, total int } // -1 = unset
 
-func (c c16Caps) String() string { return fmt.Sprintf("caps{node=%d ns=%d total=%d}", c.node, c.ns, c.total) }
+func (c c16Caps) String() string {
+	return fmt.Sprintf("caps{node=%d ns=%d total=%d}", c.node, c.ns, c.total)
+}
 
 func c16Framework(caps c16Caps, dry bool, pl *c16Plugin) (*frameworkImpl, *evictions.EvictionLimiter) {
 	lim := evictions.NewEvictionLimiter(c16Cap(caps.node), c16Cap(caps.ns), c16Cap(caps.total))
